@@ -571,6 +571,10 @@ func drawSnippet(t *rapid.T, name string, e genEnv) []Op {
 		}
 		if startHalf {
 			ops = append(ops, Op{K: "newsess", B: b}, Op{K: "visit", B: b, S: "/open"})
+			if chance(t, "pwonly", 60) {
+				// only the password step of a fresh login from the half-authed session
+				ops = append(ops, Op{K: "login", B: b, A: a, Src: "pw", SA: a}, Op{K: "regen", B: b})
+			}
 		}
 		other := (a + 1) % e.nAcct
 		for i := rapid.IntRange(1, 4).Draw(t, "npokes"); i > 0; i-- {
@@ -630,7 +634,8 @@ func drawSnippet(t *rapid.T, name string, e genEnv) []Op {
 				Op{K: "smsvalidate", B: b, A: a, Src: "sms", SA: a, SN: 1})
 		}
 		if chance(t, "totpreplay", 40) && c.HasSetup("totp") {
-			ops = append(ops, Op{K: "newsess", B: b}, login, Op{K: "totpvalidate", B: b, A: a, Src: "totp", SA: a}, Op{K: "newsess", B: b}, login, Op{K: "totpvalidate", B: b, A: a, Src: "totp", SA: a})
+			ops = append(ops, Op{K: "newsess", B: b}, login, Op{K: "totpvalidate", B: b, A: a, Src: "totp", SA: a}, Op{K: "newsess", B: b}, login,
+				Op{K: "totpvalidate", B: b, A: a, Src: "totp", SA: a, Mut: pick(t, "respell", "", "", "space", "lead")})
 		}
 	case "logoutfrom":
 		// reach a session state, then log out
